@@ -25,11 +25,13 @@ RULE = (
 )
 ASSUMPTIONS = [
     "gcc cannot confirm these cases (it rejects missing headers and unknown directives); the model is the one validated against gcc in C04",
-    "-include files are always generated resolvable (forced includes are not in the statement's list)",
+    "a forced include (-include) that resolves to no file is an #include that resolves to no file: one warning per command naming the file and the header",
     "every platform keeps at least one valid entry (an all-invalid database additionally warns 'No files found', outside the statement)",
 ]
 
-UNKNOWN_FLAGS = ["-Wall", "-fPIC", "-std=c99", "-pthread", "-march=native", "-Wextra", "-MD", "-m64"]
+UNKNOWN_FLAGS = ["-Wall", "-fPIC", "-std=c99", "-pthread", "-march=native", "-Wextra", "-MD", "-m64",
+                 # a response file and an option whose value holds a blank (argparse would hand them to the positional)
+                 "@opts.rsp", "-iquotemy inc"]
 DANGLING = ["nope.h", "sub/missing.h", "gone.hpp"]
 
 
@@ -66,6 +68,11 @@ def case_strategy():
             c.setdefault("bad_entries", {})[pname] = draw(
                 st.lists(st.sampled_from(["cb/src/generated.c", "cb/build/missing.cpp", "cb/src/nofile.h"]), max_size=2)
             )
+            # a forced include that resolves to nothing must be reported like any other missing include
+            for cmd in cmds:
+                cmd["cwd"] = c["cbroot"]  # the databases below run every command in the code-base root
+                if draw(st.integers(0, 5)) == 0:
+                    cmd["forced"] = list(cmd.get("forced", [])) + ["nowhere_forced.h"]
         c["via_argparser"] = False
         return c
 
@@ -82,6 +89,7 @@ class Capture(logging.Handler):
 
 
 RE_INC = re.compile(r"^(.*):(\d+): (user include|system include) '(.*)' not found\n", re.S)
+RE_FORCED = re.compile(r"^(.*): user include '(.*)' \(given with -include\) not found$", re.S)
 RE_UNK = re.compile(r"^(.*):(\d+):(\d+): unrecognized directive '(.*)'$", re.S)
 
 
@@ -104,9 +112,12 @@ def expected_events(case, root, layouts, counted):
     expected, events, per_cmd = pp_check.model_expect(case, root, layouts, counted)
     missing = collections.Counter()
     unknown_reached = set()
-    for evs in events.values():
+    expected_events.missing_forced = collections.Counter()
+    for (pname, i), evs in events.items():
         for e in evs:
-            if e[0] == "missing":
+            if e[0] == "missing-forced":
+                expected_events.missing_forced[(os.path.realpath(os.path.join(root, case["platforms"][pname][i]["file"])), e[1])] += 1
+            elif e[0] == "missing":
                 missing[(e[1], e[2], e[3], "user include" if e[4] == "quote" else "system include")] += 1
             elif e[0] == "unknown":
                 unknown_reached.add((e[1], e[2], e[3]))
@@ -151,7 +162,7 @@ def check_case(case, res: Result):
                 if base not in ("gcc", "g++", "clang", "clang++", "icx", "icpx", "nvcc"):
                     exp_compiler[base] += 1
                 if cmd.get("unknown_flags"):
-                    exp_flags[" ".join(cmd["unknown_flags"])] += 1
+                    exp_flags[" ".join(sorted(" ".join(cmd["unknown_flags"]).split()))] += 1  # order within one warning is not promised
             for bad in case.get("bad_entries", {}).get(pname, []):
                 exp_nofile[os.path.join(root, bad)] += 1
         cap = Capture()
@@ -182,9 +193,14 @@ def check_case(case, res: Result):
         got_nofile = collections.Counter()
         got_compiler = collections.Counter()
         got_flags = collections.Counter()
+        got_forced = collections.Counter()
         other = []
         for lvl, msg in cap.records:
             if lvl != logging.WARNING:
+                continue
+            m = RE_FORCED.match(msg)
+            if m:
+                got_forced[(os.path.realpath(m.group(1)), m.group(2))] += 1
                 continue
             m = RE_INC.match(msg)
             if m:
@@ -206,7 +222,7 @@ def check_case(case, res: Result):
                 continue
             m = re.match(r"^Unrecognized arguments: '(.*)'$", msg)
             if m:
-                got_flags[m.group(1)] += 1
+                got_flags[" ".join(sorted(m.group(1).split()))] += 1
                 continue
             other.append(msg)
         cj = {"case": case, "texts": texts}
@@ -223,6 +239,8 @@ def check_case(case, res: Result):
         bad_unknown = [k for k in unk_reached if got_unknown.get(k, 0) != 1] + [k for k, n in got_unknown.items() if (k not in unk_all) or n > 1]
         if bad_unknown:
             vs.append(make_violation("unknown-directive-warnings", cj, {"reached": sorted(rel(k) for k in unk_reached), "all": sorted(rel(k) for k in unk_all)}, sorted((rel(k), n) for k, n in got_unknown.items())))
+        if got_forced != expected_events.missing_forced:
+            vs.append(make_violation("missing-forced-include-warnings", cj, sorted((rel(k), n) for k, n in expected_events.missing_forced.items()), sorted((rel(k), n) for k, n in got_forced.items())))
         if got_nofile != exp_nofile:
             vs.append(make_violation("missing-file-entry-warnings", cj, sorted(exp_nofile.items()), sorted(got_nofile.items())))
         if got_compiler != exp_compiler:
@@ -295,7 +313,7 @@ def cli_case(case, res: Result):
         c_sys = closing(r"(\d+) system include files could not be found")
         if (c_all, c_user, c_sys) != (n_all, n_user, n_sys):
             vs.append(make_violation("cli:closing-totals", cj, {"in cbi.log": [n_all, n_user, n_sys]}, {"printed": [c_all, c_user, c_sys]}))
-        exp_user = sum(n for k, n in missing.items() if k[3] == "user include")
+        exp_user = sum(n for k, n in missing.items() if k[3] == "user include") + sum(expected_events.missing_forced.values())
         exp_sys = sum(n for k, n in missing.items() if k[3] == "system include")
         if (n_user, n_sys) != (exp_user, exp_sys):
             vs.append(make_violation("cli:include-warning-count", cj, [exp_user, exp_sys], [n_user, n_sys]))
